@@ -43,9 +43,9 @@ man = {
     'notes': 'Every check decides NECESSARY-condition clauses of its property from the source text of the current '
              'working tree (see DESIGN.md section 3 per property, including what is not decided). exit 2 + '
              'ANALYSIS-ERROR means the analysis could not find its way around the code (fail-closed), not a verdict. '
-             'source_commits lists genuine-defect repairs ("fix:" commits), there are no hook commits. Measured on 563 behaviour-preserving variants and 340 seeded '
-             'breaking changes written by independent sub-agents over ten rounds (DESIGN.md 9.6-9.16): all seeds reported by the check of the property they break; all variants '
-             'silent except 27 variant x property pairs answered "cannot read" (refactorings/UNREADABLE.json) and no listed unrepaired false alarm (refactorings/OPEN.json is empty); the full corpus (11876 entries) is as expected.',
+             'source_commits lists genuine-defect repairs ("fix:" commits), there are no hook commits. Measured on 563 behaviour-preserving variants and 360 seeded '
+             'breaking changes written by independent sub-agents over eleven rounds (DESIGN.md 9.6-9.16): all seeds reported by the check of the property they break; all variants '
+             'silent except 27 variant x property pairs answered "cannot read" (refactorings/UNREADABLE.json) and no listed unrepaired false alarm (refactorings/OPEN.json is empty); the full corpus (about 11 900 entries) is as expected.',
     'not_applicable': [],
 }
 for pid in [f'C{i:02d}' for i in range(1, 21)]:
